@@ -176,6 +176,15 @@ func main() {
 		"\tL []struct {\n\t\tX int `k:\"%s %v\"`\n\t}\n\tM map[string]struct {\n\t\tY string `path:\"c:\\\\dir\"`\n\t}\n" +
 		"\tP *struct {\n\t\tX int `t:\"50%% \\\\n\"`\n\t}\n\tN int `plain:\"n\"`\n}"
 	localSrc := map[string]string{"q0.LBl": "struct {\n\t_ struct{}\n\t_ [0]int\n}", "q0.LTg": tagged, "golib.Tg": tagged} // LBl: blanks only, zero size
+	// hand-written pointer-receiver GoString methods (the generator at HEAD ignores them; a shortcut through
+	// them must not pick up PROMOTED methods of a struct that merely embeds such a type)
+	gostringMethod := func(pkg, name string) string {
+		q := pkg + "." + name
+		return "\nfunc (this *" + name + ") GoString() string {\n\tif this == nil {\n\t\treturn \"func() *" + q + " {\\nreturn nil\\n}()\\n\"\n\t}\n" +
+			"\treturn fmt.Sprintf(\"func() *" + q + " {\\nthis := &" + q + "{}\\nthis.A = %#v\\nreturn this\\n}()\\n\", this.A)\n}\n"
+	}
+	methodSrc := map[string]string{"golib.G": gostringMethod("golib", "G"), "q0.LG": gostringMethod("q0", "LG")}
+	wireOverride := map[string]string{} // declaration name -> wire of its underlying type as the MODEL sees it
 	taggedTy := func() *ty.Ty {
 		b, f := ty.B, ty.F
 		return ty.St(f("A", ty.St(f("X", b("int")), f("Y", b("string")))), f("L", ty.Sl(ty.St(f("X", b("int"))))),
@@ -207,6 +216,18 @@ func main() {
 		cfg := addDecl("Cfg", "golib", ty.St(f("Level", ty.P(ty.N(li))), f("Wait", ty.P(ty.N(dur))), f("N", ty.P(ty.N(19)))))
 		// instantiations of generic types (package gpkg is written literally below; an instantiation is, for
 		// values, the struct it expands to; its Go spelling is its name)
+		gg := addDecl("G", "golib", ty.St(f("A", b("int"))))                                               // declares func (*G) GoString() string
+		emg := addDecl("EmG", "golib", ty.St(ty.Field{Name: "G", Embedded: true, T: ty.N(gg)}, f("N", b("int")))) // embeds G: GoString is only PROMOTED
+		rn := addDecl("Rn", "golib", b("rune"))                                                            // a named rune type
+		// Instances of generic named containers with basic elements are written element by element (never whole
+		// with %#v). The model's shortcut test is syntactic (element type is *types.Basic); the generator's has the
+		// extra `!isInstance`. The model is told so through the element type: it sees p.NI (a named int) there.
+		tagged := addDecl("Tagged[p.S1]", "gpkg", ty.Sl(b("int")))
+		wireOverride["Tagged[p.S1]"] = "(sl (n 0))"
+		tm := addDecl("TM[p.S1]", "gpkg", ty.M(b("string"), b("int")))
+		wireOverride["TM[p.S1]"] = "(m string (n 0))"
+		ta := addDecl("TA[int8]", "gpkg", ty.Ar(2, b("int")))
+		wireOverride["TA[int8]"] = "(ar 2 (n 0))"
 		oi := addDecl("Opt[int]", "gpkg", ty.St(f("V", b("int")), f("Ok", b("bool"))))
 		os_ := addDecl("Opt[string]", "gpkg", ty.St(f("V", b("string")), f("Ok", b("bool"))))
 		op := addDecl("Opt[*int]", "gpkg", ty.St(f("V", ty.P(b("int"))), f("Ok", b("bool"))))
@@ -222,6 +243,15 @@ func main() {
 			ty.N(tg), ty.P(ty.N(tg)), ty.Sl(ty.N(tg)), ty.M(b("string"), ty.N(tg)), ty.St(f("T", ty.N(tg)), f("P", ty.P(ty.N(tg)))),
 			ty.M(ty.N(ks), b("int")), ty.M(ty.N(ks), ty.Sl(b("string"))), ty.M(ty.Ar(2, b("string")), b("int")), ty.M(ty.Ar(3, b("string")), ty.P(b("int"))),
 			ty.St(f("M", ty.M(ty.N(ks), ty.N(ks)))),
+			// types with a pointer-receiver GoString method, and structs that merely embed one, by value and by pointer
+			ty.St(f("G", ty.N(gg)), f("P", ty.P(ty.N(gg))), f("E", ty.N(emg)), f("Q", ty.P(ty.N(emg))), f("L", ty.Sl(ty.N(emg)))),
+			ty.N(gg), ty.P(ty.N(gg)), ty.N(emg), ty.P(ty.N(emg)), ty.M(b("string"), ty.N(emg)),
+			// rune, *rune, named rune types (non-code-point values come from the boundary pool of "rune")
+			ty.St(f("R", b("rune")), f("P", ty.P(b("rune"))), f("L", ty.Sl(b("rune"))), f("N", ty.N(rn)), f("Q", ty.P(ty.N(rn))),
+				f("M", ty.M(b("rune"), b("string"))), f("A", ty.Ar(2, b("rune")))),
+			b("rune"), ty.P(b("rune")), ty.Sl(b("rune")), ty.N(rn), ty.P(ty.N(rn)), ty.Sl(ty.N(rn)), ty.M(ty.N(rn), b("rune")),
+			// instances of generic named slice / map / array types with basic elements
+			ty.St(f("T", ty.N(tagged)), f("M", ty.N(tm)), f("A", ty.N(ta)), f("P", ty.P(ty.N(tagged)))), ty.N(tagged), ty.P(ty.N(tm)), ty.N(ta), ty.Sl(ty.N(tagged)),
 			// struct FIELDS of type pointer-to-named-basic (local, imported, Duration-like): non-nil values take genField's pointer case
 			ty.St(f("A", ty.P(ty.N(0))), f("B", ty.P(ty.N(1))), f("C", ty.P(ty.N(2))), f("D", ty.P(ty.N(3))), f("E", ty.P(ty.N(19))),
 				f("F", ty.P(ty.N(li))), f("G", ty.P(ty.N(dur))), f("H", ty.P(ty.N(29))), f("I", ty.P(ty.N(30)))),
@@ -258,6 +288,9 @@ func main() {
 		lp := addL("LP", ty.P(ty.N(ord)), false)
 		lni := addL("LNI", b("int"), false)
 		lu := addL("LU", ty.St(f("A", b("int")), f("b", b("string")), f("c", ty.P(b("int")))), true)
+		lg := addL("LG", ty.St(f("A", b("int"))), false)
+		lemg := addL("LEmG", ty.St(ty.Field{Name: "LG", Embedded: true, T: ty.N(lg)}, f("N", b("string"))), false)
+		lrn := addL("LRn", b("rune"), false)
 		ltg := addL("LTg", taggedTy(), false)
 		lks := addL("LKS", ty.St(f("N", b("int")), f("F", b("string")), f("G", b("string"))), false)
 		lur := addL("LUR", ty.St(f("V", b("int")), f("next", ty.P(ty.N(len(env.Decls))))), true)
@@ -269,6 +302,8 @@ func main() {
 			ty.St(f("M", ty.N(mark)), f("B", ty.N(bl)), f("K", ty.N(lm)), f("S", ty.Sl(ty.N(mark))), f("R", ty.Ar(2, ty.N(mark))), f("O", ty.N(ord)),
 				f("P", ty.N(lp)), f("L", ty.N(lsl)), f("N", ty.P(ty.N(lni))), f("X", ty.N(5)), f("Q", ty.P(ty.N(rec)))),
 			ty.P(ty.St(f("A", ty.N(mark)), f("B", ty.P(ty.N(mark))), f("C", ty.N(b2)))),
+			ty.St(f("G", ty.N(lg)), f("P", ty.P(ty.N(lg))), f("E", ty.N(lemg)), f("Q", ty.P(ty.N(lemg))), f("R", ty.N(lrn)), f("S", ty.P(ty.N(lrn)))),
+			ty.N(lg), ty.N(lemg), ty.P(ty.N(lemg)), ty.Sl(ty.N(lemg)), ty.N(lrn), ty.Sl(ty.N(lrn)),
 			ty.N(ltg), ty.P(ty.N(ltg)), ty.Sl(ty.N(ltg)), ty.M(b("int"), ty.N(ltg)), ty.M(ty.N(lks), b("string")), ty.M(ty.N(lks), ty.N(mark)),
 			ty.N(lu), ty.P(ty.N(lu)), ty.Sl(ty.N(lu)), ty.N(lur), ty.P(ty.N(lur)), ty.M(b("string"), ty.N(lur)), ty.St(f("U", ty.N(lu)), f("R", ty.P(ty.N(lur)))),
 		}
@@ -315,20 +350,26 @@ func main() {
 		var sb strings.Builder
 		fmt.Fprintf(&sb, "// Package %s holds imported declarations of the corpus.\npackage %s\n\n", e.name, e.name)
 		if e.name == "gpkg" { // generic declarations, written literally; the env holds their instantiations
-			sb.WriteString("type Opt[T any] struct {\n\tV  T\n\tOk bool\n}\n\ntype Pair[K comparable, V any] struct {\n\tK K\n\tV V\n}\n")
+			sb.WriteString("type Opt[T any] struct {\n\tV  T\n\tOk bool\n}\n\ntype Pair[K comparable, V any] struct {\n\tK K\n\tV V\n}\n\n" +
+				"// generic named containers of basic elements: fmt's %#v would spell their type arguments with import paths\n" +
+				"type Tagged[T any] []int\n\ntype TM[T any] map[string]int\n\ntype TA[T any] [2]int\n")
 			write(filepath.Join(*out, filepath.FromSlash(e.dir), "x.go"), sb.String())
 			continue
 		}
 		if e.name == "golib" {
-			sb.WriteString("import (\n\t\"corpus/ext\"\n\text3 \"corpus/ext3/v2\"\n)\n\nvar _ ext3.V\nvar _ ext.XN\n\n")
+			sb.WriteString("import (\n\t\"fmt\"\n\n\t\"corpus/ext\"\n\text3 \"corpus/ext3/v2\"\n)\n\nvar _ ext3.V\nvar _ ext.XN\nvar _ = fmt.Sprintf\n\n")
 		}
 		for _, d := range env.Decls {
 			if d.Pkg == e.name {
+				if d.Src != "" {
+					sb.WriteString(d.Src + "\n")
+					continue
+				}
 				src, ok := localSrc[d.Pkg+"."+d.Name]
 				if !ok {
 					src = d.Under.Go(env, e.name)
 				}
-				fmt.Fprintf(&sb, "type %s %s\n", d.Name, src)
+				fmt.Fprintf(&sb, "type %s %s\n%s", d.Name, src, methodSrc[d.Pkg+"."+d.Name])
 			}
 		}
 		write(filepath.Join(*out, filepath.FromSlash(e.dir), "x.go"), sb.String())
@@ -338,14 +379,18 @@ func main() {
 	p.WriteString("package p\n\nimport \"corpus/ext\"\n\nvar _ ext.XN\n\n")
 	for _, d := range env.Decls {
 		if d.Pkg == "" {
-			fmt.Fprintf(&p, "type %s %s\n", d.Name, d.Under.Go(env, ""))
+			if d.Src != "" { // e.g. an alias of a generic instance (with the generic declaration itself)
+				p.WriteString(d.Src + "\n")
+			} else {
+				fmt.Fprintf(&p, "type %s %s\n", d.Name, d.Under.Go(env, ""))
+			}
 		}
 	}
 	var qs []*strings.Builder
 	var qtypes [][]*ty.Ty
 	newQ := func() int {
 		sb := &strings.Builder{}
-		fmt.Fprintf(sb, "package q%d\n\nimport (\n%s\t\"corpus/p\"\n)\n\n%svar _ p.NI\n", len(qs), extImports, extUses)
+		fmt.Fprintf(sb, "package q%d\n\nimport (\n\t\"fmt\"\n\n%s\t\"corpus/p\"\n)\n\n%svar _ p.NI\nvar _ = fmt.Sprintf\n", len(qs), extImports, extUses)
 		qs = append(qs, sb)
 		qtypes = append(qtypes, nil)
 		return len(qs) - 1
@@ -357,7 +402,7 @@ func main() {
 			if !ok {
 				src = d.Under.Go(env, gs.LocalPkg)
 			}
-			fmt.Fprintf(qs[0], "\ntype %s %s\n", d.Name, src)
+			fmt.Fprintf(qs[0], "\ntype %s %s\n%s", d.Name, src, methodSrc[d.Pkg+"."+d.Name])
 		}
 	}
 	pkgOf := func(t *ty.Ty) int {
@@ -406,7 +451,11 @@ func main() {
 		if flags == "" {
 			flags = "-"
 		}
-		fmt.Fprintf(&prelude, "decl %s %s\n", flags, d.Under.Wire())
+		w := d.Under.Wire()
+		if o, ok := wireOverride[d.Name]; ok {
+			w = o
+		}
+		fmt.Fprintf(&prelude, "decl %s %s\n", flags, w)
 	}
 
 	opsf, err := os.Create(filepath.Join(*out, "ops.txt"))
